@@ -399,7 +399,8 @@ def compile(src: h.Elaboratables) -> None:
             into the Sample technology using the Sky130 process.
 
     Returns:
-        None
+        `src`, whose Modules are modified in place.
+        (Calls of primitives given directly are replaced by the calls of the devices they compile to.)
     """
 
-    Sky130Walker().walk(src)
+    return Sky130Walker().walk(src)
